@@ -345,6 +345,15 @@ def s_saturating_sub(ip, st, fr, name, args, c, site):
     return [([T.mk_cmp('le', b, a)], lambda *x: T.mk_sub(a, b)), ([T.mk_cmp('lt', a, b)], lambda *x: I(0))]
 
 
+@S('re:^core::num::<impl (u32|usize|u64)>::saturating_(mul|add)$')
+def s_saturating_muladd(ip, st, fr, name, args, c, site):
+    a, b = args
+    ty = name.split('<impl ')[1].split('>')[0]
+    hi = T.INT_RANGES[ty][1]
+    r = T.mk_mul(a, b) if name.endswith('mul') else T.mk_add(a, b)
+    return [([T.mk_cmp('le', r, I(hi))], lambda *x: r), ([T.mk_cmp('lt', I(hi), r)], lambda *x: I(hi))]
+
+
 def _rng(x, lo, hi):
     return T.mk_and(T.mk_cmp('le', I(lo), x), T.mk_cmp('le', x, I(hi)))
 
